@@ -52,6 +52,11 @@ Occs(e) ==
     [] e = "attr2"  -> [offs |-> {18}, follow |-> TRUE]           \* local zq <const>, ent <const> = 1, 2
     [] e = "local2" -> [offs |-> {10}, follow |-> TRUE]           \* local zq, ent = 1, 2
     [] e = "forin2" -> [offs |-> {8, 34}, follow |-> FALSE]       \* for zq, ent in pairs({}) do print(ent) end
+    \* a read of a name nobody defines: the only range that designates it is the undefined-variable diagnostic
+    [] e = "undef"  -> [offs |-> {6}, follow |-> FALSE]           \* print(ent)
+    [] e = "gundef" -> [offs |-> {9}, follow |-> FALSE]           \* print(_G.ent)
+    \* a field of the table literal the file returns, reached from a second file through require
+    [] e = "retfield" -> [offs |-> {9}, follow |-> FALSE]         \* return { ent = 1 }
     [] OTHER        -> [offs |-> {}, follow |-> FALSE]
 
 VARIABLES prefix, ent, eol, line, col
